@@ -283,6 +283,20 @@ func (c *Ctx) ToReal(a *Term) *Term {
 	return c.mk("to_real", SReal, a)
 }
 
+// ToInt: floor of a real term (SMT-LIB to_int).
+func (c *Ctx) ToInt(a *Term) *Term {
+	if a.Sort == SInt {
+		return a
+	}
+	if r, ok := a.ConstRat(); ok {
+		return c.Int(FloorRat(r))
+	}
+	if a.Op == "to_real" {
+		return a.Args[0]
+	}
+	return c.mk("to_int", SInt, a)
+}
+
 func (c *Ctx) unify(a, b *Term) (*Term, *Term) {
 	if a.Sort == b.Sort {
 		return a, b
@@ -796,6 +810,8 @@ func (c *Ctx) Eval(t *Term, env map[string]*big.Rat) (*big.Rat, bool, error) {
 			memoR[t] = new(big.Rat).Quo(num(t.Args[0]), num(t.Args[1]))
 		case "to_real":
 			memoR[t] = num(t.Args[0])
+		case "to_int":
+			memoR[t] = new(big.Rat).SetInt(FloorRat(num(t.Args[0])))
 		case "tdiv", "div", "mod":
 			a, b := num(t.Args[0]), num(t.Args[1])
 			if !a.IsInt() || !b.IsInt() || b.Sign() == 0 {
